@@ -21,8 +21,20 @@ def iter_flags(restrict: restriction.base) -> Iterator[str]:
 
 
 class _use_constraint(Protocol):
-    def __call__(self, on: frozenset[str]) -> bool:
+    """Tell whether a node holds for the enabled flags.
+
+    ``None`` means the node isn't there at all: a conditional whose condition
+    is unmet, or a group left without members because of that.  A group only
+    looks at the members that are there, the way evaluating the depset
+    against the flags and matching the result does.
+    """
+
+    def __call__(self, on: frozenset[str]) -> bool | None:
         raise NotImplementedError("Constraint", "__call__")
+
+
+def __present(children: tuple[_use_constraint, ...], on: frozenset[str]) -> list[bool]:
+    return [state for c in children if (state := c(on)) is not None]
 
 
 def __use_flags_state_any(negate: bool, vals: frozenset[str]) -> _use_constraint:
@@ -36,28 +48,38 @@ def __condition(
     negate: bool, vals: frozenset[str], *children: _use_constraint
 ) -> _use_constraint:
     def check(on: frozenset[str]):
-        return vals.issubset(on) == negate or all(c(on) for c in children)
+        if vals.issubset(on) == negate:
+            return None
+        if states := __present(children, on):
+            return all(states)
+        return None
 
     return check
 
 
 def __or_constraint(negate: bool, *children: _use_constraint) -> _use_constraint:
     def check(on: frozenset[str]):
-        return any(c(on) for c in children) != negate
+        if states := __present(children, on):
+            return any(states) != negate
+        return None
 
     return check
 
 
 def __and_constraint(negate: bool, *children: _use_constraint) -> _use_constraint:
     def check(on: frozenset[str]):
-        return all(c(on) for c in children) != negate
+        if states := __present(children, on):
+            return all(states) != negate
+        return None
 
     return check
 
 
 def __just_one_constraint(negate: bool, *children: _use_constraint) -> _use_constraint:
     def check(on: frozenset[str]):
-        return (1 == sum(c(on) for c in children)) != negate
+        if states := __present(children, on):
+            return (1 == sum(states)) != negate
+        return None
 
     return check
 
@@ -66,7 +88,9 @@ def __at_most_one_constraint(
     negate: bool, *children: _use_constraint
 ) -> _use_constraint:
     def check(on: frozenset[str]):
-        return (1 >= sum(c(on) for c in children)) != negate
+        if states := __present(children, on):
+            return (1 >= sum(states)) != negate
+        return None
 
     return check
 
@@ -140,7 +164,8 @@ def __to_multiple_constraint(
 
 def __wrapper(constraint_func: _use_constraint) -> Constraint:
     def check(**kwargs):
-        return constraint_func(frozenset(k for k, v in kwargs.items() if v))
+        # a rule that isn't there has nothing to violate
+        return constraint_func(frozenset(k for k, v in kwargs.items() if v)) is not False
 
     return check
 
